@@ -66,7 +66,7 @@ def symbolise_solver(ctx, solver, tag="ps"):
 
 
 @scenario
-def poisson_solve(ctx, dim, shape, x_range, vector):
+def poisson_solve(ctx, dim, shape, x_range, vector, layout="c"):
     shape = tuple(shape)
     rt = "float32" if ctx.real_t == np.float32 else "float64"
     solver = make_solver(ctx, dim, shape, x_range)
@@ -83,8 +83,10 @@ def poisson_solve(ctx, dim, shape, x_range, vector):
             raise RuntimeError(f"FFT stub disagrees with pyfftw: {e1} {e2}")
     symbolise_solver(ctx, solver)
     fs = (3, *shape) if vector else shape
+    from checks.c11 import _laid_out
+
     f = ctx.array("rhs", fs)
-    u = ctx.array("solution_prior", fs)
+    u = _laid_out(ctx, "solution_prior", fs, layout)  # the caller's output array may be any ndarray view
     bound_vars(ctx, f)
     f0 = f.copy()
     if vector:
@@ -175,10 +177,19 @@ def main():
         chk.add(poisson_solve, real_t=rt, dim=3, shape=(2, 3, 2), x_range=1.0, vector=True)
         chk.add(second_solve_independent_of_first, real_t=rt, dim=2, shape=(3, 4))
         chk.add(second_solve_independent_of_first, real_t=rt, dim=3, shape=(2, 2, 3))
+    for lay in ("interior", "fortran", "strided"):
+        chk.add(poisson_solve, real_t="float64", dim=2, shape=(2, 3), x_range=1.0, vector=False, layout=lay)
+        chk.add(poisson_solve, real_t="float64", dim=3, shape=(2, 3, 2), x_range=1.0, vector=(lay == "interior"), layout=lay)
+    # earlier solver objects in the same process (different domain length / shape / precision) must not influence a later one
+    for rt, other in (("float64", "float32"), ("float32", "float64")) if not chk.quick else (("float64", "float32"),):
+        chk.add(poisson_solve, real_t=rt, dim=2, shape=(2, 3), x_range=2.5, vector=False, _earlier=[{"x_range": 1.0}])
+        chk.add(poisson_solve, real_t=rt, dim=3, shape=(2, 3, 2), x_range=0.37, vector=False, _earlier=[{"x_range": 1.0}])
+        chk.add(poisson_solve, real_t=rt, dim=2, shape=(3, 2), x_range=1.0, vector=False, _earlier=[{"shape": (2, 3)}, {"_real_t": other, "x_range": 3.0}])
+        chk.add(poisson_solve, real_t=rt, dim=3, shape=(2, 3, 2), x_range=1.0, vector=True, _earlier=[{"shape": (3, 2, 2), "vector": False}, {"shape": (2, 2, 3), "_real_t": other, "vector": False}])
     if chk.quick:
         chk.add(poisson_solve, real_t="float32", dim=2, shape=(3, 2), x_range=1.0, vector=False)
         chk.add(poisson_solve, real_t="float32", dim=3, shape=(2, 3, 2), x_range=1.0, vector=True)
-    chk.bounds = [f"2D shapes {s2}", f"3D shapes {s3}", f"x_range in {xr}; precisions {rts}", "rhs cells symbolic in [-1,1]; all three work buffers and the solution array arbitrary symbolic (any earlier history)",
+    chk.bounds = [f"2D shapes {s2}", f"3D shapes {s3}", f"x_range in {xr}; precisions {rts}", "output array layouts: C order, interior of a ghost-padded allocation, Fortran order, strided view", "later-object instances: one or two solver objects with a different x_range / transposed shape / other precision are constructed and used first in the same process", "rhs cells symbolic in [-1,1]; all three work buffers and the solution array arbitrary symbolic (any earlier history)",
                   f"tolerances (absolute): {TOL}"]
     chk.outside = ["larger shapes (cost of the exact DFT grows as (2n)^d n^d)", "FFTW itself (replaced by its mathematical contract, validated numerically on every shape)", "rounding inside solve()"]
     chk.assumptions = ["pyfftw plan = unnormalised r2c DFT / normalised c2r inverse reading the half spectrum (validated against real pyfftw each run)", "twiddle factors as 40-digit rationals (error absorbed in the tolerance)",
